@@ -331,14 +331,17 @@ def stream_semantic(ctx, n):
     res = run_lower(texts)
     pairs, idx = [], []
     parse_err = 0
+    sem_panics = {}
     for i, ((p, gs), (t, gts), r) in enumerate(zip(cases, texts, res)):
         if sx.head(r) != "R":
             ctx.violation({"kind": "abort", "program": t, "goals": gts, "result": str(r)[:300]})
             continue
         for pk in panics_of(r):
-            tt, gg = shrink(t, gts, pk[1])
-            ctx.violation({"kind": "panic", "where": pk[1], "message": pk[2], "program": tt, "goals": gg,
-                           "how": "generated program with semantic errors"})
+            cur = sem_panics.get(pk[1])
+            if cur is None or len(t) + sum(map(len, gts)) < len(cur[0]) + sum(map(len, cur[1])):
+                sem_panics[pk[1]] = (t, gts, pk[2], (cur[3] if cur else 0) + 1)
+            else:
+                sem_panics[pk[1]] = cur[:3] + (cur[3] + 1,)
         k = outcome_kind(r[1])
         if k[0] == "Panic":
             continue
@@ -360,6 +363,10 @@ def stream_semantic(ctx, n):
         pairs.append((sx.Pair(p, gs), exp))
         idx.append(i)
         ctx.count("semantic", (t, tuple(gts)), nontrivial=True)
+    for where, (t, gts, msg, n_occ) in sem_panics.items():
+        tt, gg = shrink(t, gts, where)
+        ctx.violation({"kind": "panic", "where": where, "message": msg, "program": tt, "goals": gg, "occurrences": n_occ,
+                       "how": "generated program with semantic errors"})
     ctx.cov["semantic_unparsed"] = parse_err
     ctx.cov["semantic_compared"] = len(pairs)
     if n and parse_err > 0.05 * n:
